@@ -118,7 +118,11 @@ static int dump_x86sig() {
   for (uint32_t id = 0; id < Inst::_kIdCount; id++) {
     const InstDB::CommonInfo& ci = InstDB::_inst_info_table[id].common_info();
     printf("inst %u %x %x %u %u\n", id, unsigned(ci._flags), unsigned(ci._avx512_flags), unsigned(ci._inst_signature_index), unsigned(ci._inst_signature_count));
-    if (InstDB::_inst_info_table[id]._encoding == InstDB::kEncodingVexRvm_Lx_2xK) printf("pairk %u\n", id);
+    {
+      uint32_t e = InstDB::_inst_info_table[id]._encoding;
+      uint32_t k = e == InstDB::kEncodingVexRvm_Lx_2xK ? 1u : e == InstDB::kEncodingX86Op ? 2u : e == InstDB::kEncodingX86Movabs ? 3u : 0u;
+      if (k) printf("enc %u %u\n", id, k);
+    }
   }
   // signature rows reachable from any instruction
   uint32_t nsig = 0, nop = 0;
